@@ -20,6 +20,12 @@ int verif_is_replay(void);
 void* verif_alloc_page_end(size_t n, size_t dist, size_t slack);  // n-byte block ending `dist` bytes before an unmapped page; `slack` (<= dist) foreign readable bytes follow it
 void verif_map_slack(const void* end, size_t k);                 // k foreign-but-mapped bytes after `end`
 void verif_check_independent(uint64_t v, const char* what);      // v must not depend on never-written memory
+// write-set / lockset tracking (C17)
+void verif_track_begin(int mode);   // 1: read-only ops on shared memory, 3: no writes to globals
+void verif_track_end(void);
+void verif_track_private(const void* p);            // the heap block containing p belongs to the calling thread only
+void verif_track_shared_range(const void* p, size_t n);  // pool metadata that must be accessed under the allocator lock (mode 2)
+void verif_track_mode(int mode);
 void verif_check_independent_mem(const void* p, size_t n, const char* what);
 #ifdef __cplusplus
 }
